@@ -22,6 +22,67 @@ namespace c09
         uint8_t tail = 0;
         template <class R> void reflect(R &r) { r & s; r & v; r & m; r & tail; }
     };
+    // user types with explicit serialize / deserialize members (third extension point of helper.h); they carry igris::buffer
+    // payloads: written as u16 length + bytes, read back zero-copy (settable_buffer) or by copy (writable_buffer)
+    struct B1
+    {
+        std::string payload;
+        int32_t tag = 0;
+        void serialize(igris::archive::binary_serializer_basic &m) const
+        {
+            m.dump(igris::buffer(payload.data(), payload.size()));
+            m.dump(tag);
+        }
+        void deserialize(igris::archive::binary_deserializer_basic &m)
+        {
+            igris::buffer b;
+            m.load_set_buffer(b);
+            payload.assign(b.data(), b.size());
+            m.load(tag);
+        }
+    };
+    struct B2
+    {
+        std::string payload; // at most 40 bytes (the receiving buffer's size)
+        uint16_t tail = 0;
+        void serialize(igris::archive::binary_serializer_basic &m) const
+        {
+            m.dump(std::string_view(payload.data(), payload.size()));
+            m.dump(tail);
+        }
+        void deserialize(igris::archive::binary_deserializer_basic &m)
+        {
+            char store[40];
+            igris::archive::writable_buffer wb;
+            wb = igris::buffer(store, sizeof store);
+            m.load(wb);
+            payload.assign(wb.data(), wb.size());
+            m.load(tail);
+        }
+    };
+    template <> struct Ref<B1>
+    {
+        static B1 gen(kit::Rng &r, GenCfg &c) { B1 b; b.payload = Ref<std::string>::gen(r, c); b.tag = Ref<int32_t>::gen(r, c); return b; }
+        static void enc(const B1 &v, std::string &o) { Ref<std::string>::enc(v.payload, o); Ref<int32_t>::enc(v.tag, o); }
+        static bool eq(const B1 &a, const B1 &b) { return a.payload == b.payload && a.tag == b.tag; }
+        static bool is_container() { return true; }
+    };
+    template <> struct Ref<B2>
+    {
+        static B2 gen(kit::Rng &r, GenCfg &c)
+        {
+            B2 b;
+            GenCfg c2 = c;
+            c2.max_str = std::min<size_t>(c.max_str, 40);
+            c2.big = false;
+            b.payload = Ref<std::string>::gen(r, c2);
+            b.tail = Ref<uint16_t>::gen(r, c);
+            return b;
+        }
+        static void enc(const B2 &v, std::string &o) { Ref<std::string>::enc(v.payload, o); Ref<uint16_t>::enc(v.tail, o); }
+        static bool eq(const B2 &a, const B2 &b) { return a.payload == b.payload && a.tail == b.tail; }
+        static bool is_container() { return true; }
+    };
     template <> struct Ref<S1>
     {
         static S1 gen(kit::Rng &r, GenCfg &c) { S1 s; s.a = Ref<int32_t>::gen(r, c); s.b = Ref<double>::gen(r, c); s.c = Ref<std::string>::gen(r, c); return s; }
@@ -155,6 +216,9 @@ namespace c09
         T1(S1, 1, true);
         T1(std::vector<S1>, 2, true);
         T1(S2, 3, true);
+        T1(B1, 1, false);
+        T1(B2, 1, false);
+        T1(std::vector<B1>, 2, true);
 #undef T1
         return a;
     }
